@@ -47,6 +47,9 @@ def harnesses(tier, seed):
                 if src == "vec":
                     # chunked pulls from the owning Vec source (take_slice + NoLeakIter) cost ~17 min per query
                     cfgs = [cf for cf in cfgs if cf[2] == 1]
+                if term == "sum" and ty == "FLF":
+                    # arithmetic + over up to 8 symbolic survivors: > 30 min per query; reduce_add covers the kernel
+                    cfgs = [(3, 2, 1)]
                 for (n, t, c) in cfgs:
                     hs.append(h(term, ty, src, n, t, c))
             if ty not in heavy_ty and src != "vec":
